@@ -19,7 +19,7 @@ def prep_slot(k):
     sh(f'rsync -rlpgoD --checksum --delete --exclude target --exclude .git /repo/ {d}/repo/')
     # a complete scratch copy of /verif whose harness points at the scratch repo
     sh(f"rsync -a --delete --exclude 'target*' --exclude .git --exclude work --exclude replays --exclude evidence --exclude 'mutants/results*' /verif/ {d}/verif/")
-    sh(f"grep -rl '\"/repo\"' {d}/verif/harness {d}/verif/harness-serde --include=Cargo.toml | xargs sed -i 's#\"/repo\"#\"{d}/repo\"#'")
+    sh(f"grep -rl '\"/repo\"' {d}/verif/harness {d}/verif/harness-serde {d}/verif/apiprobe --include=Cargo.toml | xargs sed -i 's#\"/repo\"#\"{d}/repo\"#'")
     return d
 
 def run_mutant(m, d, props, scale):
